@@ -70,7 +70,9 @@ pub fn run(args: &Args) -> i32 {
             }
         }
         if dialing {
-            net.swarm(0).dial(DialOpts::peer_id(target).addresses(vec![mem(9100)]).condition(PeerCondition::Always).build()).unwrap();
+            // the pending dial that makes the node "dialing" is, in half of the cases, a role-overridden one
+            let b = DialOpts::peer_id(target).addresses(vec![mem(9100)]).condition(PeerCondition::Always);
+            net.swarm(0).dial(if rng.bool() { b.override_role().build() } else { b.build() }).unwrap();
             net.touch(0);
             net.run(100_000, &mut sink);
             if net.board.pending_manual().is_empty() {
